@@ -91,6 +91,8 @@ func c02Blocks(inner []*Cmd, inner2 []*Cmd) []*Cmd {
 		{K: "foreach", Var: "x", E: vr("l"), Body: cp(inner), Else: cp(inner2)},
 		{K: "foreach", Var: "y", E: vr("l"), Body: append([]*Cmd{pr(call("index", vr("y"))), {K: "if", Conds: []Branch{{E: call("isLast", vr("y")), Body: []*Cmd{txt("L")}}}}}, inner...)},
 		{K: "for", Var: "y", E: call("range", I(2)), Body: cp(inner)},
+		{K: "for", Var: "y", E: call("range", I(3), I(1)), Body: cp(inner), Else: cp(inner2)},
+		{K: "for", Var: "y", E: call("range", I(1), I(6), I(2)), Body: append([]*Cmd{pr(vr("y"))}, inner...)},
 		{K: "letc", Var: "y", Body: cp(inner)},
 		{K: "call", Call: &CallSpec{Name: "deep.show", Target: "lib.deep.show", Params: []CallParam{{Key: "x", Content: cp(inner)}}}},
 		{K: "msg", Body: cp(inner)},
